@@ -127,6 +127,11 @@ type Forged struct {
 	CertSeed    common.Hash           // seed of the certificate look-back header
 	PlantedTC   uint64                // CertValThreshold that look-back header declares
 	Chain       consensus.ChainReader // chain to verify on (nil: the configuration's)
+
+	// look-back dimension
+	LB          *LBSpec
+	Claimed     uint32 // precommit weight the header claims (valid under the set and seed it was drawn against)
+	CertClaimed uint32
 }
 
 var (
